@@ -66,6 +66,7 @@ class G:
         self.k = 0
         self.typedefs = [["T0", "T1"]]  # stack of visible typedef-name lists
         self.budget = max_nodes
+        self.odd_names = True
 
     def on(self, feature, p=None):
         """May the feature be drawn?  (p: probability, None = caller decides)"""
@@ -77,9 +78,16 @@ class G:
         self.features[feature] += 1
         return True
 
+    # identifier spellings a lexer could confuse with something else: '$', a
+    # leading underscore, keyword and literal-prefix look-alikes, a very long name
+    ODD_NAMES = ["_%s", "$%s", "%s$", "L%s", "u8%s", "U%s", "int%s", "sizeof%s", "_Atomic%s", "if%s", "e%s", "x%sp1", "%s" + "q" * 120, "line%s", "pragma%s", "T0%s", "__%s"]
+
     def fresh(self, prefix="v"):
         self.k += 1
-        return "%s%d" % (prefix, self.k)
+        name = "%s%d" % (prefix, self.k)
+        if self.odd_names and self.c.chance(0.06):
+            return self.c.choice(self.ODD_NAMES) % name
+        return name
 
     def visible_typedefs(self):
         return [t for sc in self.typedefs for t in sc]
@@ -293,6 +301,10 @@ def gen_spec(g, ctx):
         if g.on("decl.two_alignas", 0.2):
             align.append(("a", ("e", ("const", "16", "int"))))
     items = [("q", q) for q in quals] + [("s", s) for s in storage] + [("f", f) for f in funcspec] + align
+    # a qualifier or function specifier may be repeated (C99 6.7.3p4, C11 6.7.4p5)
+    rep = [it for it in items if it[0] in ("q", "f") and it[1] != "_Atomic"]
+    if rep and c.chance(0.1):
+        items.append(c.choice(rep))
     items = c.shuffle(items)
     # insert type words at random positions keeping their relative order
     pos = sorted(c.int(0, len(items)) for _ in base)
